@@ -57,7 +57,7 @@ def binary(variant='hooks'):
 
 class Result(object):
     __slots__ = ('args', 'out', 'err', 'rc', 'signal', 'timed_out', 'wall', 'maxrss_kb', 'trace',
-                 'stdin_accepted', 'env', 'mode', 'pty_size', 'stdin', 'cwd')
+                 'stdin_accepted', 'env', 'mode', 'pty_size', 'stdin', 'cwd', 'parent_argv')
 
     def crashed(self):
         return self.timed_out or self.signal is not None
@@ -211,6 +211,7 @@ def run_delta(args, stdin=b'', env=None, cwd=None, mode='pipe', pty_size=(24, 80
     res.mode = mode
     res.pty_size = pty_size
     res.stdin = stdin
+    res.parent_argv = list(parent_argv) if parent_argv is not None and parent_argv is not NEUTRAL_PARENT else None
     res.cwd = cwd
     master = slave = None
     t0 = time.time()
